@@ -2546,3 +2546,16 @@ Proof.
   - destruct H as [k [Hk _]]. vm_compute in Hk. exact Hk.
   - destruct H as [u [loc [b [delay [sig [d [Ho _]]]]]]]. discriminate.
 Qed.
+
+(* verdict by txid, made explicit: two breached rows (of two users, or of two locators) whose
+   blobs decrypt to the same penalty share one fate *)
+Corollary shared_verdict sc t hash txs h t' a1 a2 p :
+  Inv t -> w_block_connected sc t (cache_block hash txs) h = Ok tt t' ->
+  In a1 (db_apps t) -> In a2 (db_apps t) ->
+  memN (a_loc a1) txs = true -> memN (a_loc a2) txs = true ->
+  decrypt (a_blob a1) (a_loc a1) = Some p -> decrypt (a_blob a2) (a_loc a2) = Some p ->
+  (In a1 (db_apps t') <-> In a2 (db_apps t')).
+Proof.
+  intros HI Hw H1 H2 M1 M2 D1 D2. destruct (w_block_connected_frame sc t hash txs h t' HI Hw) as [-> _].
+  rewrite !filter_In. unfold survives_block. rewrite M1, M2, D1, D2. tauto.
+Qed.
